@@ -21,6 +21,10 @@ EXTENDS Cheats, Bytecode, Keccak, FiniteSets
 
 CONSTANT MEMCAP      \* memory accesses ending above MEMCAP bytes are "out of gas"
 
+\* Design mutations: "none" is the specification.  EvmSmall's negative-control configurations replace this
+\* definition (cfg: Mutation <- ...) to show that each machine invariant refutes the corresponding wrong design.
+Mutation == "none"
+
 STACK_LIMIT == 1024
 \* (the one-byte instance used for exhaustive model checking, EvmSmall, gets a call-depth limit it can reach)
 DEPTH_LIMIT == IF WB = 1 THEN 6 ELSE 1024
@@ -146,8 +150,8 @@ NewFrame(kind, this, codeaddr, code, caller, origin, value, data, static, depth,
 EndFrame(m, ok, kind, data) ==
     LET f == Cur(m)
         n == Len(m.frames)
-        w1 == IF ok THEN m.world ELSE f.snapWorld
-        l1 == IF ok THEN m.logs ELSE SubSeq(m.logs, 1, f.snapLogs)
+        w1 == IF ok \/ Mutation = "no-rollback" THEN m.world ELSE f.snapWorld
+        l1 == IF ok \/ Mutation = "logs-kept" THEN m.logs ELSE SubSeq(m.logs, 1, f.snapLogs)
     IN IF n = 1
        THEN IF ok /\ f.kind = "CREATE"
             THEN [m EXCEPT !.status = "done", !.world = [w1 EXCEPT !.code = Put(w1.code, f.this, data)],
@@ -172,7 +176,7 @@ Exc(m, kind) == EndFrame(m, FALSE, kind, <<>>)
 
 Transfer(world, from, to, v) ==
     IF BIsZero(v) THEN world
-    ELSE LET b1 == Put(world.balance, from, WSub(Balance(world, from), v))
+    ELSE LET b1 == IF Mutation = "value-created" THEN world.balance ELSE Put(world.balance, from, WSub(Balance(world, from), v))
              b2 == Put(b1, to, WAdd(Get(b1, to, Zero), v))
          IN [world EXCEPT !.balance = b2]
 
@@ -291,10 +295,10 @@ DoCall(m, f, kind, to, value, args, retOff, retSize) ==
                 nf == NewFrame(kind,
                                IF kind \in {"CALL", "STATICCALL"} THEN to ELSE f.this,
                                to, CodeOf(m.world, to),
-                               IF kind = "DELEGATECALL" THEN f.caller ELSE sender,
+                               IF kind = "DELEGATECALL" /\ Mutation # "delegate-caller" THEN f.caller ELSE sender,
                                origin,
                                IF kind = "DELEGATECALL" THEN f.value ELSE IF kind = "STATICCALL" THEN Zero ELSE value,
-                               args, f.static \/ kind = "STATICCALL", f.depth + 1,
+                               args, (f.static /\ Mutation # "static-leak") \/ kind = "STATICCALL", f.depth + 1,
                                m.world, Len(m.logs), retOff, retSize)
             IN [mp EXCEPT !.frames = Append(mp.frames, [nf EXCEPT !.viaPrank = pranked]), !.world = w1]
 
